@@ -1,5 +1,5 @@
 SPECIFICATION Spec
-CONSTANTS Workers = {1, 2} MaxLog = 4 EagerCursor = FALSE
+CONSTANTS Workers = {1, 2} MaxLog = 3 EagerCursor = FALSE SmallPool = TRUE
 INVARIANT StateIsFold
 INVARIANT Converge
 INVARIANT FoldIsSound
